@@ -274,30 +274,38 @@ func DirectiveState(l *lexer) stateFn {
 func DirectiveOtherState(l *lexer) stateFn {
 	if l.acceptOnlyAlphaWord("type") {
 		l.emit(TypeDirective)
+		return rootState
 	}
 	if l.acceptOnlyAlphaWord("token") {
 		l.emit(TokenDirective)
+		return rootState
 	}
 	if l.acceptOnlyAlphaWord("union") {
 		return DirectiveUnionState
 	}
 	if l.acceptOnlyAlphaWord("left") {
 		l.emit(LeftAssoc)
+		return rootState
 	}
 	if l.acceptOnlyAlphaWord("right") {
 		l.emit(RightAssoc)
+		return rootState
 	}
 	if l.acceptOnlyAlphaWord("nonassoc") {
 		l.emit(NoneAssoc)
+		return rootState
 	}
 	if l.acceptOnlyAlphaWord("prec") {
 		l.emit(PrecDirective)
+		return rootState
 	}
 	if l.acceptOnlyAlphaWord("precedence") {
 		l.emit(Precedence)
+		return rootState
 	}
 	if l.acceptOnlyAlphaWord("start") {
 		l.emit(StartDirective)
+		return rootState
 	}
 	return rootState
 }
